@@ -86,6 +86,14 @@ Proof.
     apply Nat.leb_le in E2. apply Nat.eqb_neq in E. lia.
 Qed.
 
+(* the executable trace acceptor used by the correspondence check accepts only observable projections of
+   complete runs of the model (every thread finished) - so every accepted history of the real App.Close is a
+   trace to which the theorems above apply *)
+Theorem c14_acceptor_sound : forall n fails h, close_accepts n fails h = true ->
+  exists sched c tr, run (init (close_prog n fails)) sched = Some (c, tr) /\ obs_of tr = h
+    /\ forall t, t <= n -> thr c t = [].
+Proof. exact close_accepts_sound. Qed.
+
 (* non-vacuity: three closers, closer 2 fails; closer 1 stays blocked inside Close() while 2 and 3 are
    called and return; the schedule is accepted by `run`, Close returns last *)
 Example c14_example_run :
